@@ -14,21 +14,22 @@ import (
 )
 
 type Obligation struct {
-	Name   string
-	Func   string
-	Kind   string // index, slice, post, pre, inv-init, inv-pres, decreases, nil, typeassert, panic, overflow, lemma, canary, cover
-	Pos    string
-	Prefix int // number of script lines visible
-	PC     Term
-	Goal   Term
-	Desc   string
-	Expect Verdict // VUnsat for proof obligations; VSat for cover; canary: must not be unsat
-	fx     *FuncCtx
-	Script string // for stand-alone obligations (lemmas)
-	Result *SolveResult
-	Vars   map[string]string // model var name -> Go-level description
-	Serves []string
-	Canary bool // passes unless the solver proves unsat (vacuity guard); short timeout
+	Name      string
+	Func      string
+	Kind      string // index, slice, post, pre, inv-init, inv-pres, decreases, nil, typeassert, panic, overflow, lemma, canary, cover
+	Pos       string
+	Prefix    int // number of script lines visible
+	PC        Term
+	Goal      Term
+	Desc      string
+	Expect    Verdict // VUnsat for proof obligations; VSat for cover; canary: must not be unsat
+	fx        *FuncCtx
+	Script    string // for stand-alone obligations (lemmas)
+	Result    *SolveResult
+	Vars      map[string]string // model var name -> Go-level description
+	Serves    []string
+	Canary    bool   // passes unless the solver proves unsat (vacuity guard); short timeout
+	FindingID string // proving this obligation demonstrates a known finding (not a proof obligation of the property)
 }
 
 type FuncCtx struct {
